@@ -71,6 +71,29 @@ P = {
    text='Static. Decides for each of the six setters, on every path: one store into the backing field the getter returns, then one dispatch of on_<property>_change whose single argument is the stored expression (or a read of the field); no other event; the constructor applies the same reducing function as the setter (2-D rotation % 360); non-constant defaults are not stored bare unless immutable; the event_handler decorator cannot leak a subclass\'s events into its base (cross-talk).',
    ref='DESIGN.md section 3 C20'),
 }
+# clauses added after the second and third round of seeded changes (DESIGN.md 9.5c / 9.5d)
+EXTRA = {
+ 'C01': ' Also: no store through a row / owner-set reference taken before a call that may free it; clear() visits every row; the subclass walk of get() visits each type once (C06 rule).',
+ 'C02': ' Also: registration precedes notification on attach; the protocol table holds for every (handler?, maps-event?) valuation consistent with the path; the C04 release rules for the postponed callbacks.',
+ 'C03': ' Also: knowledge about the keys of _events is void after a delivery (callbacks may remove handlers); no construct files one mutable container under several event names.',
+ 'C04': ' Also: deliveries invalidate what dispatch() knows about its flag; SimpleLoop.switch makes the enabling assignment on the entered world on every path (C13 rule).',
+ 'C05': ' Also: only process() (and helpers that run only as part of it) applies the pending deletions; a pending mark is discarded only once the row is gone; peeked ids count as drawn; the tables agree at every call-out of the teardown helpers (C01 pair analysis).',
+ 'C06': ' Also: no memoised subclass closure; a query keeps state only if every table mutator invalidates it; issubclass()/isinstance() decisions are a disagreement with the sibling walks; the type filtered out of the execution list is the one deleted from the type table; add_component files the entity in the owner set the index holds (C01 rule).',
+ 'C07': ' Also: the world is assigned after the replaced processor was detached; the filter variable of the execution-list rebuild equals the deleted key.',
+ 'C08': ' Also: deadline and wake comparison use the timer as last written in the frame (no stale copy); a table that some method rebinds is not aliased across a coroutine step.',
+ 'C09': ' Also: kill-queue emptiness read before a body ran is stale; no table rebinding + alias across a step; no weak references in the coroutine module; generators are never closed or thrown into; the sleep test of process() (C08 rule).',
+ 'C10': ' Also: clear() empties every container made in __init__; no weak-reference dereference straight into a call anywhere in the dispatcher; the listener tables are touched by dispatcher methods only; a queued event leaves the queue before it is delivered (C04 rule).',
+ 'C11': ' Also: clear() resets only children whose back-links still name this map; the value is stored on every path of __setitem__; after the value\'s back-links are set no may-alias child has its back-links reset without an identity guard.',
+ 'C12': ' Also: the flag is lowered before the value is dropped; no read of _cache outside Handle; no memoised function resolves resources.',
+ 'C13': ' Also: no early return in Loop.switch; the world enabled by SimpleLoop.switch is resolved after Loop.switch; in-repo Handle.clear overrides only drop the cache; the C04 release rules.',
+ 'C14': ' Also: only start()/loop() store last_timestamp; the receiver of on_quit is the given world unless it is None (identity test), never chosen by truth value; world and clock are read inside the loop.',
+ 'C15': ' Also: object_from_string looks every attribute up on the previous result (0/1/2-level paths); the climb to the root map does not test the truth value of a map when a class of the resource tree defines __len__/__bool__; marker dispatch tables and helper forms are followed; exact-type replacement of listed processors (C07 rule); C04 release rules.',
+ 'C16': ' Also: the layer and lookup rules of C11 for the conflict test (every layer purged, a present handle is found whatever its truth value).',
+ 'C17': ' Also decided with exception edges; every name (dunder-prefixed too) is unwrapped through the handle-name set; every sub-map is mirrored, empty ones included.',
+ 'C18': ' Also: the singularity test is det == 0 exactly; no memoised operation; exact-type dispatch (type(x) is V) only while V.__new__ cannot build subclass instances.',
+ 'C19': ' Also: init_methods is never mutated; only on_add stores a controller\'s entity/world; add_processor hands the world over after the replacement (C07 rule).',
+ 'C20': ' Also: a computing getter is compared with what the setter announces; registration of listeners is idempotent (C03 rule); no shared listener containers; dispatcher state per instance.',
+}
 NA_REASON = 'check under construction in this round (static rules designed in DESIGN.md section 3); not claimed until it runs'
 def main():
     checks, na = [], []
@@ -85,7 +108,7 @@ def main():
               'evidence_file': f'evidence/{pid}.json',
               'replay_cmd_template': '/venv/bin/python check explain {path}',
               'engine': 'dlint',
-              'level_claimed': {'category': 'other', 'text': p['text'], 'design_ref': p['ref']},
+              'level_claimed': {'category': 'other', 'text': p['text'] + EXTRA.get(pid, ''), 'design_ref': p['ref']},
               'level_note': p.get('note', COMMON_NOTE),
               'technique': p['tech'],
             })
